@@ -103,9 +103,18 @@ impl C11 {
             Ok(Err(e)) => {
                 cx.count("rejected");
                 // the error itself must be usable: rendering it for a person ({} and {:?}) is part of "building the error report"
-                match guard(|| (format!("{}", e).len(), format!("{:?}", e).len(), e.to_string().len())) {
+                match guard(|| (format!("{}", e), format!("{:?}", e), e.to_string())) {
                     Err(c) => cx.violation(&format!("{}|error-rendering-panic|{}|{}", class, c.site(), if c.msg.contains("char boundary") { "slice not on a char boundary".to_string() } else { c.norm_msg() }), json!({"panic": c.msg, "at": format!("{}:{}", c.file, c.line), "text": String::from_utf8_lossy(text).chars().take(1500).collect::<String>()})),
-                    Ok(_) => cx.count("errors_rendered"),
+                    Ok((d, g, t)) => {
+                        // a report that quotes the source cut in the middle of a character does not crash when the cut is made on bytes and
+                        // decoded leniently: it shows as U+FFFD in a report about a text that has none
+                        let src_has = std::str::from_utf8(text).map(|s| s.contains('\u{FFFD}')).unwrap_or(true);
+                        if !src_has && (d.contains('\u{FFFD}') || g.contains('\u{FFFD}') || t.contains('\u{FFFD}')) {
+                            cx.violation(&format!("{}|error-report-cut-inside-a-character", class), json!({"report": d.chars().take(400).collect::<String>(), "text": String::from_utf8_lossy(text).chars().take(1500).collect::<String>()}));
+                        } else {
+                            cx.count("errors_rendered");
+                        }
+                    }
                 }
                 Some(false)
             }
